@@ -11,7 +11,7 @@
    per-node slice clause. *)
 From Coq Require Import List NArith ZArith Bool.
 From TexModel Require Import Base Tables Chars Tokenizer Tree Reader.
-From TexProofs Require Import TokProofs ReaderLen ReaderCons ConsTop.
+From TexProofs Require Import TokProofs ReaderLen ReaderCons ConsTop ConsBridge.
 Import ListNotations.
 
 Theorem C01_roundtrip_partial :
@@ -22,6 +22,27 @@ Theorem C01_roundtrip_partial :
     estr t = s.
 Proof. exact parse_roundtrip_hyp. Qed.
 Print Assumptions C01_roundtrip_partial.
+
+(* the same with every hypothesis decidable on the input (`hypb` is the boolean
+   conjunction of `clean_names` and the five-token check; the structural-token
+   condition of `Hyp` is PROVED for every tokenizer output) *)
+Theorem C01_roundtrip :
+  forall (s : str) (user : list str) (t : expr),
+    parse s true user = Ok t ->
+    hypb (all_skip user) (fst (tokens_of_string s)) = true ->
+    nobare t = true ->
+    no_arg_spacer (fst (tokens_of_string s)) = true ->
+    Forall (fun c => ign c = false) (categorize s) ->
+    estr t = s.
+Proof. exact parse_roundtrip. Qed.
+Print Assumptions C01_roundtrip.
+
+(* non-vacuity on a 310-character document with commands, [..]{..} arguments,
+   environments with arguments, lists, all four math kinds, comments, escaped
+   symbols, verbatim and \newcommand: hypotheses by vm_compute, conclusion by
+   applying the theorem (Proofs/ConsBridge.v) *)
+Example C01_roundtrip_doc1 : estr tree_doc1 = doc1.
+Proof. exact doc1_roundtrip. Qed.
 
 (* token level, every fuel: an expression re-serialises to exactly the tokens
    it consumed when no argument spacer was dropped *)
